@@ -25,7 +25,7 @@ RULE = (
 )
 ASSUMPTIONS = [
     "tolerance (0.5 us + 2 ns) x (tempo segments traversed = governing tempo index, +1 when the tick lies past that tempo event), DESIGN.md 3.3",
-    "charts rejected by the parser are counted and skipped (acceptance is owned by C08/C04/C15)",
+    "every enumerated chart is well-formed; its rejection by the parser is a violation (no timestamp is reported at all)",
     "BPM / resolution / gap values outside the alphabets and maps longer than the bound are not explored",
 ]
 
@@ -55,7 +55,8 @@ def probe(c):
 '''
 probe = None
 
-SCRIPT = """from fractions import Fraction
+SCRIPT = """# (a chart that is rejected outright fails this script with the parser's exception)
+from fractions import Fraction
 text = {text!r}
 tempo, resolution, queries = {tempo!r}, {res!r}, {queries!r}
 {probe_src}
@@ -147,7 +148,10 @@ def build(tempo, res):
         else:  # orange lane alone
             body += ["%d = N 4 %d" % (t, nxt)]
         body += ["%d = S 2 1" % t, "%d = E solo" % t]
-        body2 += ["%d = N 7 %d" % (t, nxt) if i % 2 == 0 else "%d = N 2 %d" % (t, nxt), "%d = E e" % t]
+        # second track: sustains reaching the probe tick AFTER the next one (they overlap the next note and cross
+        # whatever tempo changes lie in between)
+        nxt2 = pts[i + 2] - t if i + 2 < len(pts) else nxt + 5
+        body2 += ["%d = N 7 %d" % (t, nxt2) if i % 2 == 0 else "%d = N 2 %d" % (t, nxt2), "%d = E e" % t]
     return mk(res=res, sync=sync, events=ev, tracks=[("ExpertSingle", body), ("EasyGHLBass", body2)]), pts
 
 
@@ -156,12 +160,12 @@ def check_map(ctx, tempo, res):
     ctx.case((res, tuple(tempo)), nontrivial=len(tempo) >= 2, sample=lambda: dict(resolution=res, tempo=[list(x) for x in tempo], probe_ticks=pts))
     try:
         c = impl.parse(text)
-    except ValueError:
-        ctx.hist["rejected_by_parser(skipped)"] += 1
-        return
     except Exception as e:  # noqa: BLE001
-        ctx.hist["rejected_by_parser(skipped)"] += 1
-        ctx.hist["rejected:" + type(e).__name__] += 1
+        # every chart of this enumeration is well-formed (tempo map strictly increasing from tick 0 with
+        # positive tempi, signature at tick 0, bodies in tick order): a rejection means that NO timestamp is
+        # reported for any of its ticks
+        ctx.hist["rejected_by_parser"] += 1
+        _report(ctx, text, tempo, res, pts, "the well-formed chart is rejected with %s: %s" % (type(e).__name__, str(e)[:160]), key="rejected-well-formed")
         return
     ctx.hist["accepted"] += 1
     obs = probe(c)
@@ -192,10 +196,10 @@ def traversed(tempo, seg, tick):
     return seg + (1 if tick > tempo[seg][0] else 0)
 
 
-def _report(ctx, text, tempo, res, pts, msg):
+def _report(ctx, text, tempo, res, pts, msg, key="exact-time"):
     t = [list(x) for x in tempo]
     ctx.violation(
-        "exact-time",
+        key,
         dict(tempo=t, resolution=res),
         "resolution %d tempo map %r: %s" % (res, t, msg),
         script=SCRIPT.format(text=text, tempo=t, res=res, queries=pts, probe_src=PROBE_SRC.strip("\n")),
